@@ -85,11 +85,12 @@ func intersectListList(a, b []any) ([]any, error) { //nolint:unparam
 		for _, v2 := range b {
 			if reflect.DeepEqual(v1, v2) {
 				ret = append(ret, v1)
+				break
 			}
 		}
 	}
 
-	if len(ret) == 0 {
+	if len(ret) == 0 && (len(a) > 0 || len(b) > 0) {
 		ret = append(ret, "$required")
 	}
 
